@@ -230,9 +230,13 @@ class ProxyWorld:
             elif t == LOCKED: o["locked"][n] = amt
             elif t == WPLP: o["pwlp"][n] = amt
             elif t == WPFARM: o["pwfm"][n] = amt
+        o["ubase"], o["uother"] = {}, {}
         for u in range(1, NUSERS + 1):
             o["ulocked"][u] = {}
+            o["ubase"][u], o["uother"][u] = 0, 0
             for t, n, amt in toks[self.addr[u]]:
+                if t == MEX: o["ubase"][u] = amt
+                elif t == WEGLD: o["uother"][u] = amt
                 if t == WPLP: o["hlp"][n * 16 + u] = amt
                 elif t == WPFARM: o["hfm"][n * 16 + u] = amt
                 elif t == LOCKED: o["ulocked"][u][n] = amt
@@ -317,6 +321,7 @@ class ProxyWorld:
         env = dict(now=now, ok=True, pair=(0, 0, 0), farm=(0, 0), fmerge=(0, 0), rew=(0, 0), fact=(0, 0),
                    energy=pre["energy"].get(u, (0, now, 0)), unlock=0)
         n_wlp0, n_wfm0 = len(self.wlp), len(self.wfm)
+        pre_dig = vm.digest([self.proxy])
         outs = []
         exit_pen = None
         if k == "AddLiq":
@@ -401,6 +406,9 @@ class ProxyWorld:
                 t, n, a = dec_payment(x)
                 outs.append([CODE.get(t, 9), n, a])
         o["outs"] = outs
+        if not r.ok:
+            o["unchanged"] = (vm.digest([self.proxy]) == pre_dig)
+        o["exit_pen"] = exit_pen
         new_wlp = sorted(n for n in self.wlp if n > n_wlp0)
         new_wfm = sorted(n for n in self.wfm if n > n_wfm0)
         o["new_wlp"] = {n: self.wlp[n] for n in new_wlp}
@@ -601,7 +609,7 @@ def gen_op(rng, w, stats):
                 return ["SetPair", OWNER, True]
             return ["SetFarm", OWNER, 0 if not w.flags["farm0"] else 1, True]
     # ---------------- malformed / out-of-phase stream
-    if roll < 0.07:
+    if roll < 0.10:
         c = rng.randint(0, 11)
         if c == 0 and len(my_lk) >= 1:
             n, v = rng.choice(my_lk)
@@ -649,7 +657,7 @@ def gen_op(rng, w, stats):
         if c == 11 and live_lk:
             n, v = rng.choice(live_lk)
             return ["EnterFarm", u, rng.choice([1, 2]), [2, n, min(v, 10 ** 6)], []]
-        roll = rng.random() * 0.93 + 0.07
+        roll = rng.random() * 0.90 + 0.10
     if roll < 0.10:
         return ["Time", rng.choice([1, 5, 20, 100]), rng.choice([0, 0, 1, 1, 2, 5, 40, 400 if rng.random() < 0.15 else 3])]
     if roll < 0.17:
@@ -663,9 +671,11 @@ def gen_op(rng, w, stats):
         if my_fm:
             n, v = rng.choice(my_fm)
             return ["XferWfm", u, rng.choice([x for x in users if x != u]), n, part_amount(rng, v)]
-    if roll < 0.205:
+    if roll < 0.198:
         return rng.choice([["SetPair", OWNER, False], ["SetFarm", OWNER, rng.choice([0, 1]), False]])
-    want_add = roll < 0.36 or (not my_lp and not my_fm and roll < 0.6)
+    if 0.62 <= roll < 0.92 and not my_fm and (my_lp or live_lk):
+        roll = 0.55                      # nothing to exit / claim / merge yet: enter a farm instead
+    want_add = roll < 0.31 or (not my_lp and not my_fm and roll < 0.6)
     if want_add and live_lk:
         n, v = rng.choice(live_lk) if rng.random() < 0.9 or not my_lk else rng.choice(my_lk)
         cap = min(v, s["rbase"] * 1000, 10 ** 16)
@@ -692,7 +702,7 @@ def gen_op(rng, w, stats):
             for (nn, vv) in rng.sample(my_lp, min(len(my_lp), rng.choice([1, 1, 2]))):
                 extra.append([3, nn, part_amount(rng, vv)])
         return ["AddLiq", u, 0, p1, p2, extra, m1, m2]
-    if roll < 0.48 and my_lp:
+    if roll < 0.46 and my_lp:
         n, v = rng.choice(my_lp)
         a = part_amount(rng, v)
         ra, rb = (s["rbase"], s["rother"]) if w.cfg["base_first"] else (s["rother"], s["rbase"])
@@ -720,10 +730,10 @@ def gen_op(rng, w, stats):
                 for (m, v) in rng.sample(cands, min(len(cands), rng.choice([1, 1, 2]))):
                     extra.append([4, m, part_amount(rng, v)])
             return ["EnterFarm", u, farm, p, extra]
-    if roll < 0.76 and my_fm:
+    if roll < 0.77 and my_fm:
         n, v = rng.choice(my_fm)
         return ["ExitFarm", u, 0 if w.wfm[n]["ft"] == FARML else 1, [4, n, part_amount(rng, v)]]
-    if roll < 0.82 and my_fm:
+    if roll < 0.83 and my_fm:
         n, v = rng.choice(my_fm)
         return ["Claim", u, 0 if w.wfm[n]["ft"] == FARML else 1, [4, n, part_amount(rng, v)]]
     if roll < 0.87 and my_lp:
